@@ -557,6 +557,8 @@ def compute_lpl_field(variant, laa_val: np.ndarray) -> np.ndarray:
 
     la_val = np.zeros((laa_val.shape[0], laa_val.shape[1] + 1), dtype=laa_val.dtype)
     la_val[:, 1:] = laa_val
+    # LAA values read from the input use the VCF missing/end-of-vector sentinels
+    la_val[la_val < 0] = constants.INT_FILL
     ploidy = variant.ploidy
 
     if "PL" not in variant.FORMAT:
